@@ -893,7 +893,7 @@ var c30ChildRun = map[string]func(raw json.RawMessage) (V, Verdict){
 func init() {
 
 	Register(Spec[c30SDPIn]{
-		ID: "C30", Suite: "sdp", Quick: 2400, Thorough: 30000, Parallel: 8,
+		ID: "C30", Suite: "sdp", Quick: 2400, Thorough: 30000, Parallel: 8, Timeout: 400 * time.Second,
 		Corpus: func() []c30SDPIn {
 			// the Plan-B witness end to end, on the operations goroutine
 			w := []byte(c30Desc{
@@ -937,7 +937,7 @@ func init() {
 	})
 
 	Register(Spec[c30CandIn]{
-		ID: "C30", Suite: "cand", Quick: 1500, Thorough: 20000, Parallel: 8,
+		ID: "C30", Suite: "cand", Quick: 1500, Thorough: 20000, Parallel: 8, Timeout: 400 * time.Second,
 		Corpus: func() []c30CandIn {
 			var out []c30CandIn
 			for _, c := range c30Candidates {
@@ -983,7 +983,7 @@ func init() {
 	})
 
 	Register(Spec[c30MediaIn]{
-		ID: "C30", Suite: "media", Quick: 300, Thorough: 6000, Parallel: 8,
+		ID: "C30", Suite: "media", Quick: 300, Thorough: 6000, Parallel: 8, Timeout: 400 * time.Second,
 		Corpus: func() []c30MediaIn {
 			return []c30MediaIn{
 				{Sem: 0}, {Sem: 1, Simulcast: true}, {Sem: 2},
@@ -1037,7 +1037,7 @@ func init() {
 	Register(Spec[c30RTXIn]{
 		ID: "C30", Suite: "rtx", CoqImports: []string{"Check.C30"},
 		CoqType: "string * Z * Z * Z", CoqRun: "Check.C30.run_rtx",
-		Quick: 300, Thorough: 6000, Parallel: 8,
+		Quick: 300, Thorough: 6000, Parallel: 8, Timeout: 400 * time.Second,
 		Corpus: func() []c30RTXIn {
 			pad := func(h string) string { return h + strings.Repeat("00", c30RTXMTU-len(h)/2) }
 			return []c30RTXIn{
@@ -1073,7 +1073,7 @@ func init() {
 	})
 
 	Register(Spec[c30RTPIn]{
-		ID: "C30", Suite: "rtp", Quick: 1500, Thorough: 30000, Parallel: 8,
+		ID: "C30", Suite: "rtp", Quick: 1500, Thorough: 30000, Parallel: 8, Timeout: 400 * time.Second,
 		Corpus: func() []c30RTPIn {
 			return []c30RTPIn{
 				{Pkt: ""}, {Pkt: "80"}, {Pkt: "8060"}, {Pkt: "806000"},
